@@ -62,13 +62,30 @@ func TestVerifC16(t *testing.T) {
 		}
 		r.Begin(id)
 		var now time.Time
-		clock := func() time.Time { return now }
+		// Half of the tuples use a clock that advances on every reading (as the
+		// real one does): the lifetimes of one RA must then lie between the
+		// values for the first and the last reading taken while it was built,
+		// and preferred must still not exceed valid.
+		step := []time.Duration{0, 0, time.Nanosecond, 2 * time.Millisecond, 700 * time.Millisecond}[rr.Intn(5)]
+		var reads []time.Time
+		clock := func() time.Time {
+			t := now.Add(time.Duration(len(reads)) * step)
+			reads = append(reads, t)
+			return t
+		}
 		p := &Prefix{Prefix: mp("2001:db8::/64"), OnLink: true, Autonomous: true, ValidLifetime: valid, PreferredLifetime: pref, Deprecated: deprecated, Epoch: epoch, TimeNow: clock}
 		rt := &Route{Prefix: mp("2001:db8:1::/48"), Preference: ndp.High, Lifetime: route, Deprecated: deprecated, Epoch: epoch, TimeNow: clock}
 		var lastV, lastP, lastR time.Duration = -1, -1, -1
 		sawZero, sawPos := false, false
 		for _, off := range offs {
+			if step > 0 && len(reads) > 0 {
+				// keep the clock non-decreasing across RAs
+				if last := reads[len(reads)-1]; epoch.Add(off).Before(last) {
+					off = last.Sub(epoch)
+				}
+			}
 			now = epoch.Add(off)
+			reads = reads[:0]
 			ra := &ndp.RouterAdvertisement{}
 			ok := r.Guard(id, "panic", func() {
 				if err := p.Apply(ra); err != nil {
@@ -98,7 +115,22 @@ func TestVerifC16(t *testing.T) {
 				continue
 			}
 			wv, wp, wr := time.Duration(model.Remaining(epoch, int64(valid), now)), time.Duration(model.Remaining(epoch, int64(pref), now)), time.Duration(model.Remaining(epoch, int64(route), now))
-			if pi.ValidLifetime != wv || pi.PreferredLifetime != wp || ri.RouteLifetime != wr {
+			if step > 0 {
+				if len(reads) == 0 {
+					r.Violation(id, "clock-not-read", "a deprecated prefix/route was advertised without reading the clock", det)
+					break
+				}
+				last := reads[len(reads)-1]
+				within := func(got time.Duration, l time.Duration) bool {
+					return got <= time.Duration(model.Remaining(epoch, int64(l), now)) && got >= time.Duration(model.Remaining(epoch, int64(l), last))
+				}
+				if !within(pi.ValidLifetime, valid) || !within(pi.PreferredLifetime, pref) || !within(ri.RouteLifetime, route) {
+					det["clock_readings_during_this_ra"] = len(reads)
+					r.Violation(id, "wrong-remaining", "advertised lifetime is not the time remaining at any clock reading taken while the RA was built", det)
+					break
+				}
+				r.Count("advancing_clock_ras", 1)
+			} else if pi.ValidLifetime != wv || pi.PreferredLifetime != wp || ri.RouteLifetime != wr {
 				det["want"] = fmt.Sprintf("valid=%s preferred=%s route=%s", wv, wp, wr)
 				r.Violation(id, "wrong-remaining", "advertised lifetime differs from the time remaining until start + configured lifetime", det)
 				break
